@@ -387,6 +387,7 @@ func Run(c *run.Ctx) {
 	phase("diff", func() { diffs(c, forKeys) })
 	phase("probe-state", func() { probeStateCases(c) })
 	phase("lift", func() { lifts(c, forKeys) })
+	phase("mathlift", func() { mathLiftCases(c) })
 	phase("funcs", func() { funcsCases(c, forKeys) })
 	phase("layout", func() { layoutCases(c) })
 	phase("conc", func() { concurrent(c, forKeys, c.N(320, 4000)) })
